@@ -29,7 +29,7 @@ ENV.update({"CARGO_NET_OFFLINE": "true", "CARGO_TERM_COLOR": "never"})
 
 # Per-property settings. level: evidence level. require: counters that must be non-zero for the
 # run to count as having observed the property at all (otherwise: inconclusive, exit 2).
-HOOK_COMMITS = ["db69c86"]
+HOOK_COMMITS = ["db69c86", "286b4e6"]
 NOT_CLAIMED = {}
 
 SIM_NOTE = ("trusted base: the harness itself (simulated network/clock, independent wire codec, oracles), tokio's paused clock, "
